@@ -300,13 +300,24 @@ func ReadFromSTL(i io.Reader, opts STLOptions) (o *Subtitles, err error) {
 func readNBytes(i io.Reader, c int) (o []byte, err error) {
 	o = make([]byte, c)
 	var n int
-	if n, err = io.ReadFull(i, o); err != nil {
-		// Nothing left to read
+	// Unlike io.ReadFull, do not drop an error returned together with the last bytes of the block
+	for n < c && err == nil {
+		var m int
+		m, err = i.Read(o[n:])
+		n += m
+	}
+	if err != nil {
 		if err == io.EOF {
-			return
-		}
-		// The stream ended in the middle of a block
-		if err == io.ErrUnexpectedEOF {
+			// Nothing left to read
+			if n == 0 {
+				return
+			}
+			// The block is complete, the stream ended with it
+			if n == c {
+				err = nil
+				return
+			}
+			// The stream ended in the middle of a block
 			err = fmt.Errorf("astisub: read %d bytes, should have read %d", n, c)
 			return
 		}
